@@ -1,0 +1,55 @@
+/*
+ * SPDX-License-Identifier: Apache-2.0 OR LGPL-2.1-or-later
+ */
+
+//! Verification hooks, compiled only with `--cfg sux_verif`.
+//!
+//! The hooks are function pointers installed by an external conformance
+//! harness; when none is installed every hook is a no-op. They only observe:
+//! no hook changes what the crate computes.
+//!
+//! - [`atomic_pre`] is called immediately *before* every atomic memory
+//!   operation of the concurrent writers ([`AtomicBitVec`](crate::bits::AtomicBitVec)
+//!   `set`/`swap`/`get`, [`AtomicBitFieldVec`](crate::bits::AtomicBitFieldVec)
+//!   `set_atomic_unchecked`/`get_atomic_unchecked`), so that a deterministic
+//!   scheduler can decide which thread performs the next operation.
+//! - [`build_event`] is called at the steps of
+//!   [`VBuilder`](crate::func::VBuilder)'s build loop.
+
+use std::sync::OnceLock;
+
+/// `AtomicBitFieldVec`: load of a word.
+pub const BF_LOAD: u8 = 0;
+/// `AtomicBitFieldVec`: compare-exchange on a word.
+pub const BF_CAS: u8 = 1;
+/// `AtomicBitVec`: load of a word.
+pub const BV_LOAD: u8 = 2;
+/// `AtomicBitVec`: fetch_or / fetch_and on a word.
+pub const BV_RMW: u8 = 3;
+
+static ATOMIC_PRE: OnceLock<fn(u8, usize)> = OnceLock::new();
+static BUILD_EVENT: OnceLock<fn(&'static str, u64)> = OnceLock::new();
+
+/// Installs the hook called before every atomic operation (once).
+pub fn set_atomic_pre(f: fn(u8, usize)) {
+    let _ = ATOMIC_PRE.set(f);
+}
+
+/// Installs the hook called at every step of the build loop (once).
+pub fn set_build_event(f: fn(&'static str, u64)) {
+    let _ = BUILD_EVENT.set(f);
+}
+
+#[inline]
+pub fn atomic_pre(kind: u8, word_index: usize) {
+    if let Some(f) = ATOMIC_PRE.get() {
+        f(kind, word_index)
+    }
+}
+
+#[inline]
+pub fn build_event(kind: &'static str, value: u64) {
+    if let Some(f) = BUILD_EVENT.get() {
+        f(kind, value)
+    }
+}
